@@ -1,7 +1,10 @@
 ------------------------------ MODULE MC_C10 ------------------------------
 EXTENDS Ranges
 \* form: concrete comment form (spelled by the concretiser); the numbers are what the arithmetic needs
-L(form, pre, tagl, more, cend, inline) == [form |-> form, pre |-> pre, tagl |-> tagl, more |-> more, cend |-> cend, inline |-> inline]
+L(form, pre, tagl, more, cend, inline) == [form |-> form, pre |-> pre, tagl |-> tagl, more |-> more, cend |-> cend, inline |-> inline, cont |-> 0]
+\* Markdown containers: every line of the file carries a prefix of `cont` columns ("- " / two spaces in a list item, "> " in a
+\* block quote); "div*" forms put the comment on the second line of an HTML block that starts with a <div> line
+LC(form, pre, tagl, more) == [form |-> form, pre |-> pre, tagl |-> tagl, more |-> more, cend |-> 0, inline |-> FALSE, cont |-> 2]
 MCLayouts ==
   {L("hash", p, 0, 0, 0, FALSE) : p \in 0..2}
   \cup {L("trail", p, 0, 0, 0, FALSE) : p \in 0..1}
@@ -14,4 +17,7 @@ MCLayouts ==
   \cup {L("xml", p, 0, 0, 0, FALSE) : p \in 0..1}
   \cup {L("mxml", 0, 1, 1, 0, FALSE)}
   \cup {L("mdparen", 1, 0, 0, 0, FALSE)}
+  \cup {LC("xmlli", p, 0, 0) : p \in 0..2} \cup {LC("xmlbq", p, 0, 0) : p \in 0..2}
+  \cup {LC("mxmlli", p, 1, 1) : p \in 0..1} \cup {LC("mxmlbq", 1, 1, 1)}
+  \cup {LC("divli", p, 0, 0) : p \in 1..2} \cup {LC("divbq", 1, 0, 0)} \cup {L("div", p, 0, 0, 0, FALSE) : p \in 1..2}
 =============================================================================
